@@ -1,6 +1,18 @@
 /-
-  C06 — Parsing inverts printing; parser = grammar.
+  C06 — Parsing inverts printing (precedence, associativity, literals); parser = grammar.
+
+  `LStmt` (Model/Layered.lean) is the type of statements *as written*: one constructor per grammar
+  alternative, explicit parentheses, optional unary plus, empty / NULL list items, explicit ASC.
+  `printStmt` gives the token sequence, `embedStmt` the abstract syntax tree (the meaning, which
+  forgets how the statement was parenthesised).  The theorem: for every well-formed written
+  statement the parser model returns exactly its abstract syntax tree.  Minimal and redundant
+  parenthesisation, every parent x child x operand position and every depth are instances.
+
+  The tie to the shipped TatSu parser is the correspondence check (harness/props/c06.py); the
+  character level (letter case, white space, comments, literal spellings) is covered there and by
+  the scanner model Model/Lexer.lean, see DESIGN.md.
 -/
+import BqlVerif.Proofs.ParserRT2
 import BqlVerif.Model.Lexer
 import BqlVerif.Generated.Registry
 set_option autoImplicit false
@@ -12,5 +24,158 @@ theorem C06_keywords :
     (Gen.keywords.map (fun k => k.toList.map lowerChar)).all (fun k => (Syn.keywords.map String.toList).contains k) = true ∧
     (Syn.keywords.map String.toList).all (fun k => (Gen.keywords.map (fun k => k.toList.map lowerChar)).contains k) = true := by
   decide +kernel
+
+/-! ### expressions -/
+
+/-- **Round trip, expressions**: for every written expression `e` (any parenthesisation) followed by
+    anything that cannot continue an expression, the parser returns the tree of `e` and stops there. -/
+theorem C06_roundtrip_expr (e : LExpr) (h : wfExpr e) (rest : List Tok) (hr : Follow 5 rest) :
+    ∃ n, ∀ m, n ≤ m → parseExpr m (printExpr e ++ rest) = some (embedExpr e, rest) :=
+  rt_expr e h rest hr
+
+/-- … and nested SELECTs -/
+theorem C06_roundtrip_select (s : LSelect) (h : wfSelect s) (rest : List Tok) (hr : CFollow 7 rest) :
+    ∃ n, ∀ m, n ≤ m → parseSelect m (printSelect s ++ rest) = some (embedSelect s, rest) :=
+  rt_select s h rest hr
+
+/-! ### statements -/
+
+theorem parseAt_print (sf : Option String) (h : optIdentOK sf = true) (tail : List Tok) (hm : stripWord "at" tail = none) :
+    parseAt (atToks sf ++ tail) = some (sf, tail) := by
+  cases sf with
+  | none => simp [atToks, parseAt, hm]
+  | some n =>
+    have hk : isKeyword n = false := by simpa [optIdentOK, identOK] using h
+    simp [atToks, parseAt, stripWord_hit, identOf, hk]
+
+/-- the FROM clause of BALANCES / JOURNAL / PRINT -/
+theorem fromOpt_print (f : LFrom) (hw : wfFrom f) (hp : f.plain = true) (tail : List Tok) (hc : CFollow 1 tail) :
+    ∃ n, ∀ m, n ≤ m → parseFromOpt m (printFrom f ++ tail) = some (embedFrom f, tail) := by
+  cases f with
+  | none =>
+    exact ⟨0, fun m _ => by
+      simp [printFrom, parseFromOpt, stripWord_cf "from" 1 tail hc (by simp [clauseLevel]), embedFrom]⟩
+  | table n => simp [LFrom.plain] at hp
+  | sub s => simp [LFrom.plain] at hp
+  | clauses o c cl =>
+    refine ⟨1, fun m hm => ?_⟩
+    obtain ⟨k, rfl⟩ : ∃ k, m = k + 1 := ⟨m - 1, by omega⟩
+    simp [printFrom, parseFromOpt, stripWord_hit, parseFromBody_clauses o c cl tail 1 hc hw.1 hw.2.1 hw.2.2 k, embedFrom]
+  | expr e o c cl =>
+    have hh : headOKE (printExpr e) = true := by simpa using (good_expr e hw.1 [] trivial).1
+    have hne : printExpr e ≠ [] := by intro h; rw [h] at hh; simp [headOKE] at hh
+    obtain ⟨n, hn⟩ := rt_expr e hw.1 (printClauses o c cl ++ tail)
+      (by rw [printClauses_eq, List.append_assoc, List.append_assoc]; exact follow_clauses o c cl tail hc.follow)
+    have hs := fromStartOK_append _ (printClauses o c cl ++ tail) hne hw.2.1
+    refine ⟨n + 1, fun m hm => ?_⟩
+    obtain ⟨k, rfl⟩ : ∃ k, m = k + 1 := ⟨m - 1, by omega⟩
+    have hb := parseFromBody_expr e (embedExpr e) o c cl tail 1 hc hw.2.2.1 hw.2.2.2 hs k (hn k (by omega))
+    simp [printFrom, parseFromOpt, stripWord_hit, List.append_assoc, hb, embedFrom]
+
+theorem cfollow0_from (f : LFrom) (tail : List Tok) (h : CFollow 1 tail) : CFollow 0 (printFrom f ++ tail) :=
+  cfollow_from f tail h
+
+/-- **Round trip, statements**: SELECT, BALANCES, JOURNAL, PRINT with every clause combination. -/
+theorem C06_roundtrip (l : LStmt) (h : wfStmt l) :
+    ∃ n, ∀ m, n ≤ m → parseStmt m (printStmt l) = some (embedStmt l) := by
+  cases l with
+  | select s =>
+    obtain ⟨n, hn⟩ := rt_select s h [] trivial
+    obtain ⟨r, hr⟩ : ∃ r, printSelect s = .word "select" :: r := by cases s; exact ⟨_, printSelect_eq ..⟩
+    refine ⟨n, fun m hm => ?_⟩
+    have := hn m hm
+    simp only [List.append_nil] at this
+    simp only [printStmt, hr, parseStmt, isW_word, beq_self_eq_true, ↓reduceIte]
+    rw [← hr, this]
+    rfl
+  | balances sf f w =>
+    obtain ⟨hsf, hf, hp, hw⟩ := h
+    cases w with
+    | none =>
+      obtain ⟨n, hn⟩ := fromOpt_print f hf hp [] trivial
+      refine ⟨n, fun m hm => ?_⟩
+      have hat := parseAt_print sf hsf (printFrom f ++ []) (stripWord_cf "at" 0 _ (cfollow0_from f [] trivial) (by simp [clauseLevel]))
+      simp only [List.append_nil] at hat hn
+      simp [printStmt, optExprToks, parseStmt, isW, hat, hn m hm, stripWord, embedStmt]
+    | some e =>
+      obtain ⟨n1, h1⟩ := fromOpt_print f hf hp (.word "where" :: printExpr e) (by simp [CFollow, clauseLevel])
+      obtain ⟨n2, h2⟩ := rt_expr e hw [] trivial
+      refine ⟨max n1 n2, fun m hm => ?_⟩
+      have hat := parseAt_print sf hsf (printFrom f ++ .word "where" :: printExpr e)
+        (stripWord_cf "at" 0 _ (cfollow0_from f _ (by simp [CFollow, clauseLevel])) (by simp [clauseLevel]))
+      have e2 := h2 m (by omega)
+      simp only [List.append_nil] at e2
+      simp [printStmt, optExprToks, parseStmt, isW, hat, h1 m (by omega), stripWord_hit, e2, embedStmt]
+  | journal a sf f =>
+    obtain ⟨hsf, hf, hp⟩ := h
+    obtain ⟨n, hn⟩ := fromOpt_print f hf hp [] trivial
+    refine ⟨n, fun m hm => ?_⟩
+    have hat := parseAt_print sf hsf (printFrom f ++ []) (stripWord_cf "at" 0 _ (cfollow0_from f [] trivial) (by simp [clauseLevel]))
+    simp only [List.append_nil] at hat hn
+    cases a with
+    | some s => simp [printStmt, acctToks, parseStmt, isW, hat, hn m hm, embedStmt]
+    | none =>
+      -- the token after JOURNAL is not a string
+      have hnostr : ∀ s r, (atToks sf ++ printFrom f) ≠ .str s :: r := by
+        intro s r
+        cases sf <;> cases f <;> simp [atToks, printFrom]
+      generalize hts : (atToks sf ++ printFrom f) = ts at *
+      cases ts with
+      | nil => simp [printStmt, acctToks, parseStmt, isW, hts, hat, hn m hm, embedStmt]
+      | cons t r =>
+        cases t with
+        | str s => exact absurd rfl (hnostr s r)
+        | _ => simp [printStmt, acctToks, parseStmt, isW, hts, hat, hn m hm, embedStmt]
+  | print f =>
+    obtain ⟨hf, hp⟩ := h
+    obtain ⟨n, hn⟩ := fromOpt_print f hf hp [] trivial
+    refine ⟨n, fun m hm => ?_⟩
+    have := hn m hm
+    simp only [List.append_nil] at this
+    simp [printStmt, parseStmt, isW, this, embedStmt]
+
+/-! ### what the round trip fixes: precedence, associativity, parentheses (instances) -/
+
+section instances
+open LExpr LConj LInv LCmp LSum LTerm LFactor LPrim LAtom
+
+def colF (n : String) : LFactor := .prim (.atom (.col n))
+def colT (n : String) : LTerm := .factor (colF n)
+def colS (n : String) : LSum := .term (colT n)
+def colI (n : String) : LInv := .cmp (.sum (colS n))
+
+/-- `a OR b AND c` is `a OR (b AND c)`: AND binds tighter than OR -/
+example : embedExpr (.mk (.mk (colI "a") []) [.mk (colI "b") [colI "c"]]) =
+    .or [.col "a", .and [.col "b", .col "c"]] := rfl
+
+/-- `a - b - c` is `(a - b) - c`: left associative -/
+example : embedSum (.bin .sub (.bin .sub (colS "a") (colT "b")) (colT "c")) =
+    .binop .sub (.binop .sub (.col "a") (.col "b")) (.col "c") := rfl
+
+/-- `a + b * c` is `a + (b * c)`; `-a * b` is `(-a) * b` -/
+example : embedSum (.bin .add (colS "a") (.bin .mul (colT "b") (colF "c"))) =
+    .binop .add (.col "a") (.binop .mul (.col "b") (.col "c")) := rfl
+example : embedTerm (.bin .mul (.factor (.neg (colF "a"))) (colF "b")) =
+    .binop .mul (.unop .neg (.col "a")) (.col "b") := rfl
+
+/-- the parser on concrete tokens: `a or b and not c < d + e * - f . g` -/
+example : parseExpr 64 [.word "a", .word "or", .word "b", .word "and", .word "not", .word "c", .sym .lt, .word "d", .sym .plus,
+      .word "e", .sym .star, .sym .minus, .word "f", .sym .dot, .word "g"] =
+    some (.or [.col "a", .and [.col "b", .unop .not (.binop .lt (.col "c")
+      (.binop .add (.col "d") (.binop .mul (.col "e") (.unop .neg (.attr (.col "f") "g")))))]], []) := by
+  rfl
+
+/-- comparisons do not associate: `a < b < c` is rejected, `(a < b) < c` is accepted -/
+example : (parseStmt 64 [.word "select", .word "a", .sym .lt, .word "b", .sym .lt, .word "c"]).isSome = false := by decide +kernel
+example : (parseStmt 64 [.word "select", .sym .lparen, .word "a", .sym .lt, .word "b", .sym .rparen, .sym .lt, .word "c"]).isSome = true := by
+  decide +kernel
+
+/-- non-vacuity of the hypotheses: a written statement with every clause is well formed -/
+example : wfStmt (.select (.mk true (some [.mk (.mk (.mk (colI "a") []) []) (some "x")]) (.table "t")
+    (some (.mk (.mk (colI "b") []) [])) [.idx 1] (some (.mk (.mk (colI "c") []) [])) [.mk (.idx 1) true false] (some (.idx 1, .col "k")) (some 5))) := by
+  simp [wfStmt, wfSelect, wfTargets, wfExpr, wfConj, wfConjs, wfInvs, wfInv, wfCmp, wfSum, wfTerm, wfFactor, wfPrim, wfAtom, wfFrom,
+    wfKeys, wfKey, wfOrders, colI, colS, colT, colF, colOK, identOK, optIdentOK, isKeyword, keywords, PKey.ok]
+
+end instances
 
 end Bql.C06
